@@ -111,6 +111,19 @@ def run_chunk(args):
         faulthandler.cancel_dump_traceback_later()
 
 
+def run_regressions(args):
+    prop, paths = args
+    out = []
+    adapter = SimAdapter(_SIM, _KNOWN)
+    for path in paths:
+        with open(path) as f:
+            doc = json.load(f)
+        case = {"config": doc["config"], "events": doc["events"]}
+        v = run_one(adapter, case, Stats(collect=False))
+        out.append((os.path.basename(path), None if v is None else (-1, case, v.record(prop), v.klass())))
+    return out
+
+
 def run_chunk_isolated(args):
     """Every run in its own forked child of this (never-executing, hence clean)
     worker: nothing a run leaves behind in process-global state of the system
@@ -233,13 +246,17 @@ def do_make_replay(prop, sim, known, args):
         raw = json.load(f)
     adapter = SimAdapter(sim, known)
     case = {"config": raw["config"], "events": raw["events"]}
-    v = run_one(adapter, case, Stats(collect=False))
-    if v is None:
-        return 4
     n0 = len(case["events"])
     small = case
     if not args.no_minimise:
-        small = Minimiser(adapter, case, v, max_seconds=args.minimise_s).run()
+        # the first execution happens in a forked child as well: this process stays
+        # pristine until the final execution below
+        probe = Minimiser(adapter, case, Violation("?", "?", "", ""), max_seconds=args.minimise_s)
+        klass = probe.klass_of(case)
+        if klass is None:
+            return 4
+        probe.klass = klass
+        small = probe.run()
     stats = Stats(collect=False)
     v2 = run_one(adapter, small, stats)
     if v2 is None:
@@ -328,21 +345,19 @@ def do_check(prop, sim, known, args):
     if hasattr(sim, "preflight"):
         # deterministic, un-sharded part of the check (e.g. the boot sweep)
         pre = sim.preflight(seed, tier, known)
-    # regression: replay files of repaired defects must stay clean
+    # regression: replay files of repaired defects must stay clean. Executed in a
+    # forked child: this parent process never executes a case itself, so that
+    # every worker forked from it starts from the pristine post-import state
     regressions = []
     fdir = os.path.join(ROOT, "findings")
     if os.path.isdir(fdir):
-        adapter0 = SimAdapter(sim, known)
-        for name in sorted(os.listdir(fdir)):
-            if not (name.startswith(prop + "-") and name.endswith(".json")):
-                continue
-            with open(os.path.join(fdir, name)) as f:
-                doc = json.load(f)
-            case = {"config": doc["config"], "events": doc["events"]}
-            v = run_one(adapter0, case, Stats(collect=False))
-            if v is not None:
-                regressions.append((-1, case, v.record(prop), v.klass()))
-                print("regression: %s fails again" % name)
+        names = [n for n in sorted(os.listdir(fdir)) if n.startswith(prop + "-") and n.endswith(".json")]
+        ctx0 = multiprocessing.get_context("fork")
+        with ProcessPoolExecutor(max_workers=1, mp_context=ctx0) as pool0:
+            for name, payload in pool0.submit(run_regressions, (prop, [os.path.join(fdir, n) for n in names])).result():
+                if payload is not None:
+                    regressions.append(payload)
+                    print("regression: %s fails again" % name)
 
     chunks = [(prop, seed, tier, s, min(s + chunk, total_runs), chunk_timeout, args.double) for s in range(0, total_runs, chunk)]
     agg = {
